@@ -208,3 +208,53 @@ func FullRange(at ssa.Instruction, sx *Symx, xs string) (bool, string) {
 }
 
 var _ = token.NoPos
+
+// SliceElemWrites finds, in fn, every write of a []byte-like slice value as an element of a longer-lived list inside a
+// loop: `list = append(list, v)` and `list[i] = v`. Each is returned with the freshness verdict of v.
+func SliceElemWrites(fn *ssa.Function) []ListElem {
+	var out []ListElem
+	isSliceOfBytes := func(v ssa.Value) bool { return isByteSlice(v.Type()) }
+	for _, b := range fn.Blocks {
+		loop := loopBlocks(b)
+		if loop == nil {
+			continue
+		}
+		for _, ins := range b.Instrs {
+			st, ok := ins.(*ssa.Store)
+			if !ok || !isSliceOfBytes(st.Val) {
+				continue
+			}
+			ia, ok := st.Addr.(*ssa.IndexAddr)
+			if !ok {
+				continue
+			}
+			// varargs array of an append(list, v) in this block, or a direct list[i] = v
+			direct := true
+			if arr, isA := ia.X.(*ssa.Alloc); isA {
+				direct = false
+				for _, r := range *arr.Referrers() {
+					if sl, isS := r.(*ssa.Slice); isS {
+						for _, r2 := range *sl.Referrers() {
+							if cl, isC := r2.(*ssa.Call); isC {
+								if bi, isB := cl.Call.Value.(*ssa.Builtin); isB && bi.Name() == "append" && cl.Call.Args[1] == ssa.Value(sl) {
+									if _, fromPhi := cl.Call.Args[0].(*ssa.Phi); fromPhi {
+										direct = true
+									}
+								}
+							}
+						}
+					}
+				}
+			}
+			if !direct {
+				continue
+			}
+			if c, isC := st.Val.(*ssa.Const); isC && c.Value == nil {
+				continue
+			}
+			f, why := freshPerIteration(st.Val, loop)
+			out = append(out, ListElem{Val: st.Val, At: st, Fresh: f, Why: why})
+		}
+	}
+	return out
+}
